@@ -18,7 +18,7 @@ LEVEL = 'exploration'
 RULE = ('case = block of cells of the matrix (primary flags, subkey flags..., operation, enforcement, form); one evaluation per cell; non-trivial cell = at least '
         'two components or a refusal expected; distinct = distinct cell descriptors (digest)')
 ASSUMPTIONS = ['flag sets are read from the most recent self-signature of each component through public attributes', 'when several components qualify any of them may be used (the model only requires that the one used qualifies)']
-MIN_COUNTERS = {'quick': {'cells': 3000, 'refusals_expected_and_seen': 350, 'components_confirmed_cryptographically': 1200, 'form_cells': 120},
+MIN_COUNTERS = {'quick': {'cells': 3000, 'refusals_expected_and_seen': 350, 'components_confirmed_cryptographically': 1200, 'form_cells': 120, 'forms_after_unlock_attempts': 12},
                 'thorough': {'cells': 12000}}
 BUDGET = {'quick': (600, 1500), 'thorough': (1800, 3600)}
 TECHNIQUE = 'runtime monitoring: exhaustive policy-matrix enumeration against a policy model; the component actually used is confirmed cryptographically by the reference'
@@ -283,10 +283,33 @@ def _forms(ctx, d, pgpy):
     for pn, subn, subflags in (('ed25519_0', 'ed25519_1', ['Sign']), ('rsa1024_0', 'cv25519_0', ['EncryptCommunications']), ('ecdsa_p256_0', 'rsa1024_1', ['Sign', 'EncryptCommunications']),
                                ('ed25519_2', 'ecdsa_p256_1', ['Sign'])):
         cell = {'p': pn, 'pf': ['Certify'], 'subs': [[subn, subflags]]}      # the primary cannot sign: data signatures must come from the subkey
-        for form in ('public', 'private', 'locked', 'unlocked', 'sub-locked-primary-open', 'primary-locked-sub-open'):
+        for form in ('public', 'private', 'locked', 'unlocked', 'sub-locked-primary-open', 'primary-locked-sub-open',
+                     'locked-after-wrong-passphrase', 'locked-after-unlock-that-failed-half-way', 'locked-after-scope-left', 'locked-after-exception-in-scope'):
             k = build(cell)
             sk = list(k.subkeys.values())[0]
-            if form in ('locked', 'unlocked'):
+            if form.startswith('locked-after'):
+                k.protect('pw', SymmetricKeyAlgorithm.AES128, HashAlgorithm.SHA1)
+                if form == 'locked-after-unlock-that-failed-half-way':
+                    # the subkey gets a passphrase of its own: unlocking the key with the primary's passphrase fails at the subkey
+                    with k.unlock('pw'):
+                        sk.protect('another pw', SymmetricKeyAlgorithm.AES128, HashAlgorithm.SHA1)
+                try:
+                    if form == 'locked-after-wrong-passphrase':
+                        with k.unlock('not the passphrase'):
+                            pass
+                    elif form == 'locked-after-unlock-that-failed-half-way':
+                        with k.unlock('pw'):
+                            pass
+                    elif form == 'locked-after-scope-left':
+                        with k.unlock('pw'):
+                            k.sign('inside the scope')
+                    else:
+                        with k.unlock('pw'):
+                            raise RuntimeError('application error inside the scope')
+                except Exception:
+                    pass
+                ctx.count('forms_after_unlock_attempts')
+            elif form in ('locked', 'unlocked'):
                 k.protect('pw', SymmetricKeyAlgorithm.AES128, HashAlgorithm.SHA1)
             elif form == 'sub-locked-primary-open':
                 sk._key.protect('pw', SymmetricKeyAlgorithm.AES128, HashAlgorithm.SHA1)
